@@ -1,1 +1,7 @@
 import Mastverif.Model.Tree
+import Mastverif.Model.Codec
+import Mastverif.Model.Hash
+import Mastverif.Model.Store
+import Mastverif.Lemmas.Basic
+import Mastverif.Lemmas.WF
+import Mastverif.Props.C01
